@@ -256,7 +256,7 @@ def build_harness(name, link_lib=True, sanitize=True, extra_flags=()):
         os.rename(exe + '.tmp', exe)
     return exe
 
-ASAN_ENV = {'ASAN_OPTIONS': 'detect_leaks=1:abort_on_error=0:exitcode=99:allocator_may_return_null=1:detect_stack_use_after_return=0',
+ASAN_ENV = {'ASAN_OPTIONS': 'detect_leaks=1:abort_on_error=0:exitcode=99:allocator_may_return_null=1:max_allocation_size_mb=1024:detect_stack_use_after_return=0',
             'UBSAN_OPTIONS': 'print_stacktrace=1:halt_on_error=1:exitcode=98',
             'LSAN_OPTIONS': 'exitcode=97'}
 
